@@ -161,3 +161,116 @@ func init() {
 		return sched.Config{Bounds: sched.Bounds{}, MaxSteps: 200000}, c20tcpBody(d)
 	}})
 }
+
+// ---------------------------------------------------------------------------
+// C20 (S) two relayed connections end at the same moment (both clients close, their host is removed, the backend
+// closes them, or the service is stopped): the accounting of one connection must not disturb the other's.
+//
+// bound     all schedules P1 F1 (quick) / P2 F1 (thorough) from the moment the connections end; plain reads and
+//           writes of statistic values are scheduling points of their own, and a thread arriving at one is run last
+//           (sched.YieldAt)
+// oracle    afterwards (and after Stop) the active gauges are back, totals equal destroyed, both sides
+// ---------------------------------------------------------------------------
+
+func c20tcpConcurrentBody() {
+	sched.SetQuiet(true)
+	how := []string{"clients-close", "host-removed", "backend-closes", "stop"}[sched.Choose(sched.ClsInput, 4, "ending")]
+	restore := proc.VerifSetListenFunc(vnet.Listen)
+	sched.OnReset(restore)
+	addr := "10.3.0.1:80"
+	var backendConns []*vnet.VConn
+	ln, _ := vnet.Listen("tcp", addr)
+	sched.GoServer("backend", func() {
+		for {
+			c, err := ln.Accept()
+			if err != nil {
+				return
+			}
+			vc := c.(*vnet.VConn)
+			backendConns = append(backendConns, vc)
+			sched.GoServer("backend-conn", func() {
+				buf := make([]byte, 64)
+				for {
+					if _, err := vc.Read(buf); err != nil {
+						vc.Close()
+						return
+					}
+				}
+			})
+		}
+	})
+	p := vfTCPProc(vfTCPConfig(service.LoadBalancePolicy_ROUND_ROBIN, 0), host.New(addr))
+	start := c20tcpTake(p)
+	p.Start()
+	sched.WaitQuiescent()
+	var clients []*vnet.VConn
+	for i := 0; i < 2; i++ {
+		c, err := vnet.DialConn(vfTCPAddr)
+		if err != nil {
+			sched.Fail("harness-dial", err.Error())
+			return
+		}
+		c.Label = "client"
+		c.Write([]byte("hello"))
+		clients = append(clients, c)
+	}
+	sched.WaitQuiescent()
+	sched.SetQuiet(false)
+	// a thread about to read or overwrite a statistic value directly (not through an atomic add) is run last
+	sched.YieldAt("stats.")
+	stopped := false
+	switch how {
+	case "clients-close":
+		for _, c := range clients {
+			c.Close()
+		}
+	case "host-removed":
+		p.OnSvcHostRemove([]*host.Host{host.New(addr)})
+	case "backend-closes":
+		for _, c := range backendConns {
+			c.Close()
+		}
+	case "stop":
+		sched.GoNamed("stopper", func() { p.Stop(); stopped = true })
+	}
+	sched.WaitQuiescent()
+	sched.SetQuiet(true)
+	for _, c := range clients {
+		if !c.IsClosed() {
+			c.Close()
+		}
+	}
+	sched.WaitQuiescent()
+	if how != "stop" {
+		sched.GoNamed("stopper", func() { p.Stop(); stopped = true })
+		sched.WaitQuiescent()
+	}
+	if !stopped {
+		return // a hanging Stop belongs to C09
+	}
+	now := c20tcpTake(p)
+	where := fmt.Sprintf("two connections ending at once (%s)", how)
+	if now.dA != start.dA {
+		sched.Fail("active-connection-gauge-not-zero / tcp downstream / connections ending at once", fmt.Sprintf("%s: gauge moved by %d", where, int64(now.dA-start.dA)))
+	}
+	if now.uA != start.uA {
+		sched.Fail("active-connection-gauge-not-zero / tcp upstream / connections ending at once", fmt.Sprintf("%s: gauge moved by %d", where, int64(now.uA-start.uA)))
+	}
+	if t, d := now.dT-start.dT, now.dD-start.dD; t != d {
+		sched.Fail("connections-total-differs-from-destroyed / tcp downstream / connections ending at once", fmt.Sprintf("%s: total %d destroyed %d", where, t, d))
+	}
+	if t, d := now.uT-start.uT, now.uD-start.uD; t != d {
+		sched.Fail("connections-total-differs-from-destroyed / tcp upstream / connections ending at once", fmt.Sprintf("%s: total %d destroyed %d", where, t, d))
+	}
+	sched.SetOutcome(how)
+}
+
+func init() {
+	sched.Register(&sched.Scenario{Name: "C20/tcp-concurrent-close", Setup: func(tier string) (sched.Config, func()) {
+		b := sched.Bounds{P: 1, F: 1}
+		if tier == "thorough" {
+			b = sched.Bounds{P: 2, F: 1}
+		}
+		return sched.Config{Bounds: b, Iterative: true, MaxSteps: 200000}, c20tcpConcurrentBody
+	}})
+}
